@@ -16,6 +16,7 @@ From RU Require Import Model.Host Proofs.C09_Host Proofs.C16_RT6Model.
 From RU Require Import Model.FormUrlencoded Model.QueryPairs Proofs.C02_Form Proofs.C02_SetCred Proofs.C02_SetCredCanon Proofs.C02_QPort Proofs.C02_Reach3.
 From RU Require Proofs.C15_Ser.
 From RU Require Import Proofs.C02_SetHostFrame Proofs.C02_SetHostCanon Proofs.C02_SetScheme Proofs.C02_PathSetter Proofs.C02_SetPath Proofs.C02_Reach4.
+From RU Require Import Proofs.C02_Stmt4 Proofs.C02_QHost Proofs.C02_SetHostNone Proofs.C02_SetPathNoAuth Proofs.C02_SetPathOpaque Proofs.C02_Reach5.
 Open Scope string_scope.
 Open Scope N_scope.
 Open Scope list_scope.
@@ -1013,6 +1014,205 @@ Print Assumptions C02_statement_refuted.
 Theorem C02_statement3_refuted : ~ C02_statement3.
 Proof. exact statement3_refuted. Qed.
 Print Assumptions C02_statement3_refuted.
+
+(* ---------- M. the statement corrected: C02_statement4 over Reachable4 (known_step3 = known_step2 + Known_F_C02_10) ---------- *)
+(* M.0  Known_F_C02_10 = the class F-C07-8 seen from C02 (computable; mirror of known_f_c07_8 in harness/src/bin/c02/main.rs):
+   url::quirks::set_host on a URL whose scheme is not special, whose user name is empty and which has a password.
+   Reachable4 = Reachable3 with every step outside known_step3; C02_statement4 also carries host_nonempty, the
+   hypothesis the host-setter theorems need (proved of the host model).  NOT proved in full. *)
+Definition C02_full_statement4 : Prop := C02_statement4.
+
+Theorem C02_F_C02_10_witness :
+  Known_F_C02_10 w10_u0 w10_op = true
+  /\ known_step2 true mhp host_parse_opaque host_display w10_u0 w10_op = false
+  /\ known_step3 true mhp host_parse_opaque host_display w10_u0 w10_op = true
+  /\ apply_op true mhp host_parse_opaque host_display w10_u0 w10_op = Some w10_u1
+  /\ list_eqb (ser w10_u1) (B "a://:pw@/p") = true
+  /\ match reparse true mhp host_parse_opaque host_display w10_u1 with PErr EmptyHost => true | _ => false end = true.
+Proof. exact F_C02_10_witness. Qed.
+Print Assumptions C02_F_C02_10_witness.
+
+(* the new quantifier restricts the previous one, so nothing that was meant is lost ... *)
+Theorem C02_Reachable4_restricts : forall dbg hp hpo hd u, Reachable4 dbg hp hpo hd u -> Reachable3 dbg hp hpo hd u.
+Proof. exact Reachable4_3. Qed.
+Print Assumptions C02_Reachable4_restricts.
+
+Theorem C02_statement3_implies_statement4 : C02_statement3 -> C02_statement4.
+Proof. exact statement3_implies_4. Qed.
+Print Assumptions C02_statement3_implies_statement4.
+
+(* ... and the histories of C02_reach_partial3 are inside it *)
+Theorem C02_reach_partial3_in_statement4 : forall dbg hp hpo hd, HostOK2 hp hpo hd -> host_nonempty hp hpo -> forall u,
+  ReachC3 dbg hp hpo hd u -> Reachable4 dbg hp hpo hd u.
+Proof. exact ReachC3_Reachable4. Qed.
+Print Assumptions C02_reach_partial3_in_statement4.
+
+Example C02_F_C02_10_class :
+  match mparse (B "a://u:pw@h/p") with POk u => Known_F_C02_10 u (OQHost []) | _ => true end = false
+  /\ match mparse (B "http://:pw@h/p") with POk u => Known_F_C02_10 u (OQHost []) | _ => true end = false
+  /\ match mparse (B "a://h/p") with POk u => Known_F_C02_10 u (OQHost []) | _ => true end = false
+  /\ match mparse (B "a:/p") with POk u => Known_F_C02_10 u (OQHost []) | _ => true end = false
+  /\ match mparse (B "a://:pw@h/p") with POk u => Known_F_C02_10 u (OQHostname []) | _ => true end = false
+  /\ match mparse (B "a://:pw@h/p") with POk u => Known_F_C02_10 u (OQHost (B "x")) | _ => false end = true.
+Proof. exact F_C02_10_class. Qed.
+
+(* M.1  L2 for url::quirks::set_hostname and url::quirks::set_host on every Canon record.  Both run the host state of the
+   parser on the argument (quirks host also the port state behind ':') and call set_host_internal; the empty host is
+   stored only on a record without userinfo and port: quirks hostname checks port, user name and password itself,
+   quirks host does not look at the password - hence known_step3 (Known_F_C02_10) in its premise.  Uses the first
+   clause of host_nonempty (Host::parse never returns the empty host) *)
+Theorem C02_q_set_hostname_Canon : forall dbg hp hpo hd, HostRT hp hpo hd -> host_above hp hpo hd -> forall u v u' s,
+  Canon hp hpo hd u -> known_step2 dbg hp hpo hd u (OQHostname v) = false ->
+  q_set_hostname dbg hp hpo hd u v = Some (u', s) -> nlen (ser u') <= U32_MAX_P -> Canon hp hpo hd u'.
+Proof. exact q_set_hostname_Canon. Qed.
+Check C02_q_set_hostname_Canon : forall dbg hp hpo hd, HostRT hp hpo hd -> host_above hp hpo hd -> forall u v u' s,
+  Canon hp hpo hd u -> known_step2 dbg hp hpo hd u (OQHostname v) = false ->
+  q_set_hostname dbg hp hpo hd u v = Some (u', s) -> nlen (ser u') <= 4294967295 -> Canon hp hpo hd u'.
+Print Assumptions C02_q_set_hostname_Canon.
+
+Theorem C02_q_set_host_Canon : forall dbg hp hpo hd, HostRT hp hpo hd -> host_above hp hpo hd -> forall u v u' s,
+  (forall t, hp t <> Ok (HDomain [])) -> Canon hp hpo hd u -> known_step3 dbg hp hpo hd u (OQHost v) = false ->
+  q_set_host dbg hp hpo hd u v = Some (u', s) -> nlen (ser u') <= U32_MAX_P -> Canon hp hpo hd u'.
+Proof. exact q_set_host_Canon. Qed.
+Check C02_q_set_host_Canon : forall dbg hp hpo hd, HostRT hp hpo hd -> host_above hp hpo hd -> forall u v u' s,
+  (forall t, hp t <> Ok (HDomain [])) -> Canon hp hpo hd u ->
+  known_step2 dbg hp hpo hd u (OQHost v) || Known_F_C02_10 u (OQHost v) = false ->
+  q_set_host dbg hp hpo hd u v = Some (u', s) -> nlen (ser u') <= 4294967295 -> Canon hp hpo hd u'.
+Print Assumptions C02_q_set_host_Canon.
+
+(* the getters the two setters consult, on the userinfo frame  scheme "://" user rest X *)
+Theorem C02_username_shape : forall dbg sch X dh dp dq df hi pt Un Ur, username dbg (sh_url sch X dh dp dq df hi pt Un Ur) = Some Un.
+Proof. exact sh_username. Qed.
+Print Assumptions C02_username_shape.
+
+Theorem C02_password_shape : forall dbg sch X dh dp dq df hi pt Un P,
+  password dbg (sh_url sch X dh dp dq df hi pt Un (58 :: P ++ [64])) = Some (Some P).
+Proof. exact sh_password. Qed.
+Print Assumptions C02_password_shape.
+
+(* M.2  L2 for Url::set_host(None) on every Canon record, outside known_step2 (F-C02-2: path starting with "//"; F-C03-5:
+   marker): no length premise (the result is shorter).  Opaque path: refused; no authority, empty host, special scheme:
+   unchanged; authority with a host: everything between scheme ":" and the path is cut out.  On an EMPTY path followed by
+   a query or fragment the debug build panics (F-C04-1: set_host returns no value, the premise is false) and the release
+   build gives scheme ":" [?q] [#f], the canonical opaque record with an empty path *)
+Theorem C02_set_host_none_Canon : forall dbg hp hpo hd, HostRT hp hpo hd -> forall u u' s, Canon hp hpo hd u ->
+  known_step2 dbg hp hpo hd u (OSetHost None) = false ->
+  set_host dbg hp hpo hd u None = Some (u', s) -> Canon hp hpo hd u'.
+Proof. exact set_host_none_Canon. Qed.
+Check C02_set_host_none_Canon : forall dbg hp hpo hd, HostRT hp hpo hd -> forall u u' s, Canon hp hpo hd u ->
+  known_step2 dbg hp hpo hd u (OSetHost None) = false ->
+  set_host dbg hp hpo hd u None = Some (u', s) -> Canon hp hpo hd u'.
+Print Assumptions C02_set_host_none_Canon.
+
+(* the setter on the frame  scheme ":" "//" M' T [?q] [#f]  (T = the path text): None = panic *)
+Theorem C02_set_host_none_shape : forall dbg hp hpo hd sch M' ue hs he hi pt T q f, hi <> HI_None ->
+  scheme_type_of sch = STNotSpecial ->
+  set_host dbg hp hpo hd (hn_url sch M' ue hs he hi pt T q f) None
+  = if dbg && negb (C02_AuthWf.head_is (w0 (T ++ qf_text q f)) 47) then None else Some (hn_result sch T q f, SOk).
+Proof. exact set_host_none_frame. Qed.
+Print Assumptions C02_set_host_none_shape.
+
+(* M.3  L2 for Url::set_path on every Canon record that is not cannot-be-a-base (classes (ii), (iii), (iv)) and for
+   url::quirks::set_pathname on EVERY Canon record, for every argument, outside known_step2 (F-C03-5: the record carries
+   the "/." marker; F-C02-8: no authority and the new path starts with "//").  On a record without authority the result
+   is the canonical record without authority, or - when the path state writes nothing (empty argument) - scheme ":" [?q]
+   [#f], the canonical opaque record with an empty path.  Url::set_path on an opaque path (class (i)): M.3b *)
+Theorem C02_set_path_Canon_hier : forall dbg hp hpo hd u x u', Canon hp hpo hd u -> cannot_be_a_base u = Some false ->
+  usv_list x -> known_step2 dbg hp hpo hd u (OSetPath x) = false ->
+  set_path dbg u x = Some u' -> nlen (ser u') <= U32_MAX_P -> Canon hp hpo hd u'.
+Proof. exact set_path_Canon_hier. Qed.
+Check C02_set_path_Canon_hier : forall dbg hp hpo hd u x u', Canon hp hpo hd u -> cannot_be_a_base u = Some false ->
+  usv_list x -> known_step2 dbg hp hpo hd u (OSetPath x) = false ->
+  set_path dbg u x = Some u' -> nlen (ser u') <= 4294967295 -> Canon hp hpo hd u'.
+Print Assumptions C02_set_path_Canon_hier.
+
+Theorem C02_q_set_pathname_Canon_all : forall dbg hp hpo hd u x u', Canon hp hpo hd u -> usv_list x ->
+  known_step2 dbg hp hpo hd u (OQPathname x) = false ->
+  q_set_pathname dbg u x = Some u' -> nlen (ser u') <= U32_MAX_P -> Canon hp hpo hd u'.
+Proof. exact q_set_pathname_Canon_all. Qed.
+Check C02_q_set_pathname_Canon_all : forall dbg hp hpo hd u x u', Canon hp hpo hd u -> usv_list x ->
+  known_step2 dbg hp hpo hd u (OQPathname x) = false ->
+  q_set_pathname dbg u x = Some u' -> nlen (ser u') <= 4294967295 -> Canon hp hpo hd u'.
+Print Assumptions C02_q_set_pathname_Canon_all.
+
+(* M.3b  L2 for Url::set_path on the canonical records with an OPAQUE path, outside F-C02-3 ('?' / '#' in the argument, or
+   an argument ending in a space): the new path is "%2F" (when the tab/LF/CR-free argument starts with '/') followed by the
+   CONTROLS encoding of the argument without tab / LF / CR - CONTROLS-clean, free of '?' '#', not starting with '/', not
+   ending in a space or control.  C02_set_path_opaque_shape: the result, for EVERY argument (also inside F-C02-3) *)
+Theorem C02_set_path_opaque_shape : forall dbg sch P q f x u', opaque_ok sch P q f -> usv_list x ->
+  set_path dbg (opaque_url sch P q f) x = Some u' -> u' = opaque_url sch (opq_path x) q f.
+Proof. exact set_path_opaque. Qed.
+Print Assumptions C02_set_path_opaque_shape.
+
+Theorem C02_set_path_opaque_Canon : forall dbg hp hpo hd sch P q f x u', opaque_ok sch P q f -> usv_list x ->
+  Known_F_C02_3 (opaque_url sch P q f) (OSetPath x) = false ->
+  set_path dbg (opaque_url sch P q f) x = Some u' -> nlen (ser u') <= U32_MAX_P -> Canon hp hpo hd u'.
+Proof. exact set_path_opaque_Canon. Qed.
+Check C02_set_path_opaque_Canon : forall dbg hp hpo hd sch P q f x u', opaque_ok sch P q f -> usv_list x ->
+  Known_F_C02_3 (opaque_url sch P q f) (OSetPath x) = false ->
+  set_path dbg (opaque_url sch P q f) x = Some u' -> nlen (ser u') <= 4294967295 -> Canon hp hpo hd u'.
+Print Assumptions C02_set_path_opaque_Canon.
+
+Theorem C02_opaque_path_state_setter : forall l ser, usv_list l ->
+  parse_cannot_be_a_base_path CSetter ser l = (ser ++ encode T_CONTROLS (utf8_encode (no_tnl l)), []).
+Proof. exact cbb_setter_spec. Qed.
+Print Assumptions C02_opaque_path_state_setter.
+
+(* M.4  C02_statement4 restricted to the histories of C02_reach_partial3 extended by quirks hostname, quirks host,
+   set_host(None), quirks pathname and set_path (on every record) and by path_segments_mut sessions on opaque paths (refused:
+   unchanged), each step outside known_step3 (ReachC4; canon_op4 = every operation of C02_Reach.op except path_segments_mut
+   sessions on records that are not cannot-be-a-base): every record is a fixpoint of re-parsing, wf_b, ASCII.
+   Still missing for C02_statement4: the file scheme, joins through the path arms of the relative state and absolute
+   references against a base, an encoding override on special schemes; path_segments_mut sessions on classes (ii)-(iv). *)
+Theorem C02_reach_partial4 : forall dbg hp hpo hd, HostOK2 hp hpo hd -> host_nonempty hp hpo -> forall u,
+  ReachC4 dbg hp hpo hd u -> Fixpoint_of_reparse dbg hp hpo hd u /\ wf_b u = true /\ ascii (ser u).
+Proof. exact reach_partial4. Qed.
+Check C02_reach_partial4 : forall dbg hp hpo hd, HostOK2 hp hpo hd -> host_nonempty hp hpo -> forall u,
+  ReachC4 dbg hp hpo hd u ->
+  parse_url dbg hp hpo hd None None (utf8_lossy (ser u)) = POk u /\ wf_b u = true /\ ascii (ser u).
+Print Assumptions C02_reach_partial4.
+
+Theorem C02_reach_partial4_in_statement : forall dbg hp hpo hd, HostOK2 hp hpo hd -> host_nonempty hp hpo -> forall u,
+  ReachC4 dbg hp hpo hd u -> Reachable4 dbg hp hpo hd u.
+Proof. exact ReachC4_Reachable4. Qed.
+Print Assumptions C02_reach_partial4_in_statement.
+
+Theorem C02_reach_partial4_extends : forall dbg hp hpo hd u, ReachC3 dbg hp hpo hd u -> ReachC4 dbg hp hpo hd u.
+Proof. exact ReachC3_C4. Qed.
+Print Assumptions C02_reach_partial4_extends.
+
+Theorem C02_reach_partial4_absolute : forall dbg hp hpo hd, HostOK2 hp hpo hd -> host_nonempty hp hpo -> forall u b,
+  ReachC4 dbg hp hpo hd u -> parse_url dbg hp hpo hd None (Some b) (utf8_lossy (ser u)) = POk u.
+Proof. exact reach4_absolute. Qed.
+Print Assumptions C02_reach_partial4_absolute.
+
+Theorem C02_reach_partial4_model : forall dbg idna, IdnaOK idna -> forall u,
+  ReachC4 dbg (host_parse idna) host_parse_opaque host_display u ->
+  Fixpoint_of_reparse dbg (host_parse idna) host_parse_opaque host_display u /\ wf_b u = true /\ ascii (ser u).
+Proof. exact reach_partial4_model. Qed.
+Print Assumptions C02_reach_partial4_model.
+
+(* non-vacuity, on the host model with idna_clean: a://u:pw@h.x:81/p?q -> quirks hostname("example.org") -> quirks
+   host("[::1]:82") = a://u:pw@[::1]:82/p?q -> set_host(None) = a:/p?q -> set_path("x/../y z") = a:/y%20z?q -> set_path("")
+   = a:?q ; a:/p -> quirks host("") = a:///p ; a://h/p -> quirks pathname("") = a://h ; a:b?q -> set_path("/x y/z") = a:%2Fx y/z?q ; a://h?q -> set_host(None): panic in
+   the debug build (F-C04-1), a:?q in the release build; each record is a fixpoint *)
+Example C02_reach_partial4_inhabited :
+  match m_hist "a://u:pw@h.x:81/p?q" [OQHostname (B "example.org")] with
+  | Some u => list_eqb (ser u) (B "a://u:pw@example.org:81/p?q") && m_fix u | None => false end = true
+  /\ match m_hist "a://u:pw@h.x:81/p?q" [OQHostname (B "example.org"); OQHost (B "[::1]:82")] with
+     | Some u => list_eqb (ser u) (B "a://u:pw@[::1]:82/p?q") && m_fix u | None => false end = true
+  /\ match m_hist "a://u:pw@h.x:81/p?q" [OQHostname (B "example.org"); OQHost (B "[::1]:82"); OSetHost None] with
+     | Some u => list_eqb (ser u) (B "a:/p?q") && m_fix u | None => false end = true
+  /\ match m_hist "a://u:pw@h.x:81/p?q" [OQHostname (B "example.org"); OQHost (B "[::1]:82"); OSetHost None; OSetPath (B "x/../y z")] with
+     | Some u => list_eqb (ser u) (B "a:/y%20z?q") && m_fix u | None => false end = true
+  /\ match m_hist "a://u:pw@h.x:81/p?q" [OQHostname (B "example.org"); OQHost (B "[::1]:82"); OSetHost None; OSetPath (B "x/../y z"); OSetPath []] with
+     | Some u => list_eqb (ser u) (B "a:?q") && m_fix u | None => false end = true
+  /\ match m_hist "a:/p" [OQHost []] with Some u => list_eqb (ser u) (B "a:///p") && m_fix u | None => false end = true
+  /\ match m_hist "a://h/p" [OQPathname []] with Some u => list_eqb (ser u) (B "a://h") && m_fix u | None => false end = true
+  /\ match m_hist "a:b?q" [OSetPath (B "/x y/z")] with Some u => list_eqb (ser u) (B "a:%2Fx y/z?q") && m_fix u | None => false end = true
+  /\ match m_hist "a://h?q" [OSetHost None] with Some _ => false | None => true end = true
+  /\ match m_hist_r "a://h?q" [OSetHost None] with Some u => list_eqb (ser u) (B "a:?q") && m_fix u | None => false end = true.
+Proof. exact reach4_example. Qed.
 
 (* ---------- F. every excluded class contains a history that is not a fixpoint ---------- *)
 Theorem C02_F_C03_5_refuted :
